@@ -32,7 +32,7 @@ CONSTANTS K,        \* effective keep-alive of the first connection in ms (0 = d
           MaxConn,  \* number of connections explored (1: no reconnect)
           UNIT,     \* ms per time step
           MaxT,     \* explore until this time (ms)
-          Dev,      \* deviations: "ping_rearm_on_pingresp", "timeout_at_queue_time", "lead_quarter", "replay_queued_ping"
+          Dev,      \* deviations: "ping_rearm_on_pingresp", "timeout_at_queue_time", "lead_quarter", "replay_queued_ping", "q0_stamp_before_write"
           Record
 
 RTT == 5000
@@ -177,6 +177,16 @@ Publish0 ==
   /\ UNCHANGED << now, k, conn, queued, live, pingTimeout, inbox, pingAt, pingDone >>
   /\ hist' = Log("q0", << >>)
 
+\* ... or tries to: the transport takes nothing of the packet (write returns Ok(0)), the call fails with the
+\* write-zero error and nothing was sent -- the keep-alive timer is not restarted (deviation
+\* "q0_stamp_before_write": it is, as if a packet had gone out)
+Publish0Zero ==
+  /\ live /\ waiting /\ ~queued
+  /\ nextPing' = IF "q0_stamp_before_write" \in Dev /\ k # 0 THEN now + SendInterval ELSE nextPing
+  /\ waiting' = FALSE /\ wake' = None /\ susp' = FALSE      \* the pending poll() is dropped first
+  /\ UNCHANGED << now, k, conn, queued, live, pingTimeout, inbox, lastDone, pingAt, pingDone, viol >>
+  /\ hist' = Log("q0zero", << >>)
+
 \* ---- connections -----------------------------------------------------------------------------------
 \* a poll finds the PINGREQ due, queues it, the transport does not take it, the application drops the poll
 Stall ==
@@ -210,7 +220,7 @@ Connect(k2) ==
   /\ UNCHANGED << now, queued, viol >>
   /\ hist' = Log("conn", k2)
 
-Next == (~waiting /\ Poll) \/ Tick \/ Arrive("PINGRESP") \/ Arrive("OTHER") \/ Publish0
+Next == (~waiting /\ Poll) \/ Tick \/ Arrive("PINGRESP") \/ Arrive("OTHER") \/ Publish0 \/ Publish0Zero
         \/ Stall \/ Drop \/ (\E k2 \in Ks : Connect(k2))
 
 Spec == Init /\ [][Next]_vars
